@@ -260,7 +260,9 @@ def processComment (env : Env) (snippet bigPrefix subslice : List Char) (offset 
             (takeBytes? off subslice).map (v1.push .comment)
           else
             match takeBytes? off subslice, indentNl? env commentIndent, dropBytes? (off + 1) subslice with
-            | some firstLine, some nl, some otherLines =>
+            | some firstLine, some nl, some rest =>
+              -- behind a line comment a comment of its own starts: its indentation is dropped
+              let otherLines := if startsWith subslice ['/', '/'] then trimStart rest else rest
               some (((v1.push .comment firstLine).push .blank nl).push .comment
                 (rcOr env otherLines commentShape))
             | _, _, _ => none
